@@ -29,7 +29,9 @@ int main(int argc, char **argv) {
         randMax = thorough ? 7 : 6;
         randomCount = (uint64_t)R.args.geti("random", thorough ? 12000 : 1200);
     }
-    SpecSpace sd(true, dirExh, randomCount, randMin, randMax), su(false, undExh, randomCount, randMin, randMax);
+    unsigned bigEvery = (unsigned)R.args.geti("bigevery", prop == "C10" ? 12 : 25);
+    SpecSpace sd(true, dirExh, randomCount, randMin, randMax, bigEvery), su(false, undExh, randomCount, randMin, randMax, bigEvery);
+    sd.padIsolated = su.padIsolated = true;
     uint64_t total = (sd.count() + su.count()) * variants;
     if (R.args.mode == "count") {
         printf("%llu\n", (unsigned long long)total);
@@ -44,7 +46,7 @@ int main(int argc, char **argv) {
         bool directed = si < sd.count();
         cur = directed ? sd.at(si, R.args.seed) : su.at(si - sd.count(), R.args.seed);
         if (cur.exhaustive) R.count("graphs_from_exhaustive_enumeration");
-        else R.count("graphs_random");
+        else R.count(cur.n >= 25 ? "graphs_random_25_to_92_vertices_with_hubs" : "graphs_random");
         R.count(directed ? "specs_directed" : "specs_undirected");
         if (!cur.edges.empty() || cur.n > 0) R.distinct.insert(mix64(cur.hash(), curVariant));
         for (auto &r : all)
